@@ -79,7 +79,7 @@ func checkC09(p *Program, r *Result) {
 	// ---- c: same engine as C15.b restricted to the lexer and helpers
 	spec := sourceSpec()
 	R := p.reachSet(spec)
-	cfg := errFlowCfg{rule: "C09.c", inScope: p.scopeFn(spec, R), allowClassify: true, forbidEOF: true}
+	cfg := errFlowCfg{rule: "C09.c", inScope: p.scopeFn(spec, R), allowClassify: true, forbidEOF: true, passThrough: repositioningCall}
 	for _, fn := range sortedFuncs(readerScope(p)) {
 		runErrFlow(p, r, fn, cfg)
 	}
